@@ -74,6 +74,7 @@ func (h *history) addOutgoing(
 		SSRC:               ssrc,
 		SequenceNumber:     h.counter,
 		RTPSequenceNumber:  rtpSequenceNumber,
+		IsTWCC:             isTWCC,
 		TWCCSequenceNumber: twccSequenceNumber,
 		Size:               size,
 		Departure:          departure,
@@ -177,13 +178,15 @@ func (h *history) buildReport() []PacketReport {
 // delete removes p from the history. It must be called while holding the lock
 // for writing.
 func (h *history) delete(p *PacketReport) {
-	if p.IsTWCC {
+	if c, ok := h.twccToCounter[p.TWCCSequenceNumber]; p.IsTWCC && ok && c == p.SequenceNumber {
+		// (a newer packet may already have reused the 16-bit transport-wide number)
 		delete(h.twccToCounter, p.TWCCSequenceNumber)
 	}
 	delete(h.ssrcSeqNrToCounter, ssrcSequenceNumber{
 		ssrc:           p.SSRC,
 		sequenceNumber: p.RTPSequenceNumber,
 	})
+	delete(h.packets, p.SequenceNumber)
 }
 
 // cleanBefore removes all entries in the interval [h.cleanBefore, counter).
